@@ -207,7 +207,7 @@ def judgeOp (j : JSt) (op : String) (rec : String) : JSt × String :=
           if (l.take 9) == b "S iauth :" then
             match inUseOf (l.drop 9) with
             | some n => if n != t.live.length then v ++ [⟨"C10", s!"{n} requests reported in use, {t.live.length} clients are live"⟩] else v
-            | none => v
+            | none => v ++ [⟨"C10", "the statistics reply no longer states the number of requests in use in a form this check can read"⟩]
           else v) v
         let (j, v) := withSpec01 j (some raw) outs v
         ({ j with t := t }, fmtViol v)
